@@ -345,6 +345,21 @@ func ruleSetExponentArgs(w *World, r *RuleResult) {
 				ok, why = true, nil
 			}
 		}
+		// inside Rounder.Round, after the digit-dropping division, the digit count may be asserted from the
+		// precision (the quotient keeps Precision digits; roundAddOne renormalises a carry, C07.R2): an
+		// arithmetic claim this rule does not decide
+		if !ok && w.ownerIn(f, []string{rounderRound}) != "" && len(w.digitDiscardSites(f)) > 0 {
+			only := true
+			for _, y := range uniqStrings(why) {
+				if y != "constant 1" && !strings.HasSuffix(y, ".Precision") && !strings.Contains(y, ".Precision)") {
+					only = false
+				}
+			}
+			if only {
+				r.ok(key, w.instrPos(c), "digit count asserted from the context's precision after the digit-dropping division: "+short(e.String(), 120)+" (arithmetic claim, not decided)", false)
+				continue
+			}
+		}
 		if ok {
 			r.ok(key, w.instrPos(c), "nd = "+short(e.String(), 120), true)
 		} else {
